@@ -98,3 +98,17 @@ Proof. exact nisect_old_refuted. Qed.
 Theorem C10_candidate_refuted : exists A, gate_ncandidate A (ncandidate_old A) = false /\ wis_empty A = false.
 Proof. exact ncandidate_old_refuted. Qed.
 Print Assumptions C10_candidate_refuted.
+Print Assumptions C10_valid_nunionb.
+Print Assumptions C10_inj2_onb.
+Print Assumptions C10_nuseless_useful.
+Print Assumptions C10_ncandidate_sub.
+Print Assumptions C10_gate_nreverse.
+Print Assumptions C10_gate_nsame.
+Print Assumptions C10_nfa_same_lang.
+Print Assumptions C10_model_nunion_passes.
+Print Assumptions C10_model_nisect_passes.
+Print Assumptions C10_model_nreverse_passes.
+Print Assumptions C10_model_nunreach_passes.
+Print Assumptions C10_model_nuseless_passes.
+Print Assumptions C10_model_ncandidate_passes.
+Print Assumptions C10_isect_refuted.
